@@ -107,7 +107,7 @@ PROPS = {
                    'once and no all-old match; (b) run_rules_impl stamps every rule it ran with the timestamp of the run; (c) run_rules_inner, flush_updates_inner '
                    'and rebuild strictly advance the timestamp on every successful path, rebuild or not; (d) a row rewritten by the merge callback carries the '
                    'incoming timestamp; (e) the dirty-id closure handed to the row refresh is closed under container nesting (unit cont); (f) (unit tblrebuild) every row re-inserted by the non-incremental table rebuild carries next_ts in its sort column (the insert_row! macro, expanded mechanically), so it counts as new; (g) (unit insert) the offsets vector that the timestamp-range search reads describes the sort column of every live row after serial_insert. Equality of whole databases under --naive (a two-run relation) is not stated.',
-        level_note='Trusted: RuleSetBuilder::add_rule_from_cached_plan restricts the cached rule by the given constraints; rows re-inserted by the INCREMENTAL table rebuild and by refresh_rows_for_values carry next_ts '
+        level_note='Trusted: RuleSetBuilder::add_rule_from_cached_plan restricts the cached rule by the given constraints; rows re-inserted by the INCREMENTAL table rebuild carry next_ts '
                    '(core-relations rebuild.rs; assumed; the non-incremental path is proved); Database contracts as for C04; merge-unit assumptions as for C05.',
         assumptions=['engine-level re-timestamping during rebuild and the join engine honouring the constraints are assumed'],
     ),
@@ -147,7 +147,7 @@ PROPS = {
         assumptions=['one apply_rebuild pass canonicalises rows and merges congruent ones: assumed (unsafe row buffers, hashbrown)'],
     ),
     'C14': dict(
-        units=['cont', 'merge', 'driver'],
+        units=['cont', 'merge', 'driver', 'tblrebuild'],
         kani_quick=[],
         kani_thorough=['rebuild_slice_default'],
         design_ref='DESIGN.md section 4 (U-CONT, U-MIN, U-REBUILD) and section 5 C14',
@@ -156,7 +156,7 @@ PROPS = {
                    'that is CLOSED under "is directly contained in" for all container types and nesting depths and raises `changed` whenever it adds one; '
                    '(merge) the container merge closure of register_container_ty keeps min(old,new) and stages exactly that union; (driver) every rebuild pass rebuilds containers '
                    'before tables, refreshes rows with exactly that pass\'s dirty ids and timestamp, and stops only when container rebuild, table rebuild and refresh all report no change. '
-                   'The container environments themselves (DashMap hash-consing, apply_rebuild_*, val_index maintenance) and Set/Map/MultiSet rebuild_contents are NOT covered.',
+                   '(tblrebuild) the staging half of SortedWritesTable::refresh_rows_for_values (lifted): every live candidate row is removed and re-inserted unchanged except for its sort column, which becomes next_ts, so rules see the parent rows of a rebuilt container again; which rows are candidates (the rebuild index lookup) is assumed. The container environments themselves (DashMap hash-consing, apply_rebuild_*, val_index maintenance) and Set/Map/MultiSet rebuild_contents are NOT covered.',
         level_note='Trusted: IndexSet as a set, ValueRebuilder::rebuild_val as a pure function of (rebuilder, value) [the default rebuild_slice body IS verified, R-ITERMUT], DynamicContainerEnv::extend_containers_containing adds exactly the direct '
                    'parents recorded in val_index, DenseIdMap::iter; rewrites R-INTOVEC, R-ITER, R-AUTOTRAIT (dyn T + Send + Sync -> dyn T), R-INHERENT; the Database contracts of C04.',
         assumptions=['ContainerEnv (DashMap, trait objects) and refresh_rows_for_values (hashbrown index) assumed', 'termination of the closure loop not claimed'],
